@@ -125,9 +125,10 @@ def tiers(tier, seed):
         return True
 
     # every run: the fixed shapes under the configurations that change control flow most
-    variants = [dict(), dict(bottomup=1, manual=1), dict(log=2, limit=1, payload=2), dict(bottomup=1, log=0, taskcap=1, payload=3)]
+    variants = [dict(), dict(bottomup=1, manual=1), dict(log=2, limit=1, payload=2), dict(plans=0, bottomup=1, history=0),
+                dict(bottomup=1, log=0, taskcap=1, payload=3), dict(plans=0, serial=0, struct=0, manual=1, log=2)]
     for sh in FIXED_SHAPES():
-        for v in (variants if tier != 'quick' else variants[:3]):
+        for v in (variants if tier != 'quick' else variants[:4]):
             cfg = dict(E.DEFAULTS)
             cfg.update(v)
             add(sh, cfg)
@@ -142,6 +143,11 @@ def tiers(tier, seed):
         cfg['log'] = [1, 1, 2, 0][(r >> 4) & 3]
         cfg['payload'] = [1, 1, 2, 3][(r >> 6) & 3]
         cfg['taskcap'] = [0, 0, 1, 3][(r >> 8) & 3]
+        # optional features compiled out (1 in 8 each): the model follows the same switches
+        if (r >> 10) & 7 == 0: cfg['plans'] = 0
+        if (r >> 13) & 7 == 0: cfg['history'] = 0
+        if (r >> 16) & 7 == 0: cfg['serial'] = 0
+        if (r >> 19) & 7 == 0: cfg['struct'] = 0
         add(sh, cfg)
         if len(jobs) >= fixed + nshapes:
             break
@@ -304,11 +310,20 @@ def run(pid, tier, seed):
         'model/implementation agreement is established for the generated programs of this run only',
         'user callbacks are arbitrary decision streams in the theorems; in the harness they are seeded random scripts'])
     res['broken'] += full['broken']
+    FEATURE_KEYS = ('plans', 'serial', 'history', 'util', 'struct', 'log', 'payload', 'limit', 'taskcap', 'dev')
+
+    def featured(cfg):
+        return [k for k in FEATURE_KEYS if int(cfg.get(k, E.DEFAULTS[k])) != E.DEFAULTS[k]]
+    base_diverges = any(not featured(d['config']) for d in full['divergences'])
     for d in full['divergences']:
         classes = d['classes']
         hit = set()
         for c in classes:
             hit |= RELEVANCE.get(c, set(MACH_PROPS))
+        # C15: the model and the code disagree only when an optional feature is switched away from its default
+        # while every all-default program of this run still agrees: the switch changed unrelated behaviour
+        if featured(d['config']) and not base_diverges:
+            hit.add('C15')
         if pid in hit:
             res['broken'].append('correspondence (classes %s) on shape %s config %s: %s' % (
                 ','.join(classes), d['shape'], json.dumps(d['config'], sort_keys=True), d['message'][:900]))
